@@ -7,6 +7,8 @@ package proxy
 import (
 	"context"
 	"fmt"
+	"google.golang.org/grpc/codes"
+	"google.golang.org/grpc/status"
 	"math/big"
 	"strconv"
 	"testing"
@@ -315,7 +317,10 @@ func c07wRun(c c07wCase) error {
 		far.Take()
 		s := (c.Shard-1)%lcm + 1
 		if _, e := vfInvoke(conn, st, nil, vfStreamMD(7, 3, 9, int(s))); e != nil {
-			return fmt.Errorf("HARNESS: stream via %s failed: %v", side, e)
+			if code := status.Code(e); code == codes.DeadlineExceeded || code == codes.Unavailable || code == codes.Canceled {
+				return fmt.Errorf("HARNESS: stream via %s failed: %v", side, e)
+			}
+			return fmt.Errorf("(L=%d,R=%d): a stream opened for LCM shard %d (of 1..%d) through the %s server was not forwarded but failed: %v", c.L, c.R, s, lcm, side, e)
 		}
 		seen := far.Take()
 		if len(seen) != 1 {
@@ -351,8 +356,16 @@ func TestVF_C07_Wiring(t *testing.T) {
 		return
 	}
 	rapid.Check(t, func(rt *rapid.T) {
-		c := c07wCase{L: rapid.SampledFrom([]int32{1, 2, 3, 4, 6, 8, 9, 12, 16, 512}).Draw(rt, "l"), R: rapid.SampledFrom([]int32{1, 2, 3, 4, 5, 6, 10, 12, 27, 1024}).Draw(rt, "r"),
+		c := c07wCase{L: rapid.SampledFrom([]int32{1, 2, 3, 4, 6, 8, 9, 12, 16, 512, 1024}).Draw(rt, "l"), R: rapid.SampledFrom([]int32{1, 2, 3, 4, 5, 6, 10, 12, 27, 1024, 1000}).Draw(rt, "r"),
 			Shard: rapid.Int32Range(1, 1<<20).Draw(rt, "shard")}
+		if rapid.Bool().Draw(rt, "boundaryShard") {
+			// ends of the LCM range, the two counts, and the sizes at which per-stream bookkeeping arrays grow
+			lcm := int32(c07BigLCM(c.L, c.R).Int64())
+			c.Shard = rapid.SampledFrom([]int32{1, 2, lcm, lcm - 1, c.L, c.R, c.L + 1, c.R + 1, 1023, 1024, 1025, 1152, 1153, 1154, 1296, 1297, 2367, 2368}).Draw(rt, "bshard")
+			if c.Shard < 1 {
+				c.Shard = 1
+			}
+		}
 		c.FVILocal = rapid.SampledFrom([]int64{0, 0, 100, 1000000}).Draw(rt, "fviL")
 		c.FVIRemote = rapid.SampledFrom([]int64{0, 0, 100, 1000000}).Draw(rt, "fviR")
 		c.NSMap = rapid.Bool().Draw(rt, "nsMap")
